@@ -25,6 +25,7 @@ units.UNITS['ClJmp'] = clunits.gen_cljmp
 units.UNITS['ClMem'] = clunits.gen_clmem
 units.UNITS['JitMulDiv'] = clunits.gen_jitmuldiv
 units.UNITS['JitMisc'] = clunits.gen_jitmisc
+units.UNITS['JitFrame'] = clunits.gen_jitframe
 units.UNITS['ClMisc'] = clunits.gen_clmisc
 units.UNITS['JitEnc'] = clunits.gen_jitenc
 units.UNITS['JitArms'] = clunits.gen_jitarms
